@@ -5,7 +5,41 @@ closed form, one-step equations, guards): `HydroVerif/Lemmas/C17.lean`.
 `α` is any commutative ring (ℚ, ℝ, ℤ, ...); `nf = fun _ => false` is `isnan` in exact arithmetic.
 The theorems named `kernel_*` hold for every order `p` (the length of the coefficient vector, no upper
 bound), every starting lag buffer and every series length; the others speak about `sim` / `residual`
-(the kernels behind their guards, orders 1..10) and about the Python wrappers' defaults.
+(the kernels behind their guards, orders 1..10) and about the Python wrappers `pySim` / `pyResidual(D)`.
+All of `sim`, `residual`, `pySim`, `pyResidual`, `pyResidualD`, `dataMean` are executed by the driver (Float:
+bit for bit against the real code; Rat, i.e. the `nf` instance the theorems are about: within a rounding
+budget on short series).  `simBuf` / `resBuf` are ghost state (the code never returns its buffer): they are
+tied to the executed `simRun` / `resRun` by `kernel_sim_resume` / `kernel_residual_resume`.
+
+Clause of the property                                   | theorems                                   | outside the theorems
+---------------------------------------------------------|--------------------------------------------|---------------------
+every order 1..10, any finite φ, mean, initial value:    | sim_recursion, wrapper_sim_recursion       | IEEE rounding:
+ armodel_sim reproduces y[t]-m = Σφ[k](y[t-k]-m)+e[t]    | (defaults / explicit sim_mean, sim_ini),   | float_recursion_statement
+ started from the initial value                          | kernel_sim_recursion (every p),            | (not proved; executed bit for
+                                                         | kernel_buffer_holds_centred_past           | bit + oracle budget)
+armodel_residual is its inverse: residual(sim e) = e     | kernel_residual_sim, residual_sim,         | float_residual_sim_statement;
+                                                         | wrapper_residual_sim (hyp. hm),            | sim_mean defaulted on BOTH calls:
+                                                         | kernel_same_buffer_every_step              | false on the code, known finding
+                                                         |                                            | (wrapper_defaults_not_inverse)
+sim(residual y) = y                                      | kernel_sim_residual, sim_residual,         | float_sim_residual_statement;
+                                                         | sim_residual_present (y with NaN),         | same known finding
+                                                         | wrapper_sim_residual (hyp. hm),            |
+                                                         | kernel_same_buffer_every_step'             |
+missing innovations act as zero innovations              | nan_innovation_is_zero,                    | — (any isnan: holds for the
+                                                         | wrapper_nan_innovation_is_zero             | Float instance as well)
+missing inputs give zero residuals                       | residual_zero_at_missing,                  | at Float the residual is 0 up to
+                                                         | wrapper_residual_zero_at_missing           | rounding for order ≥ 2 (oracle budget)
+unsupported orders or NaN parameters are rejected        | accepts_iff, rejects_bad_order,            | exception class / message text
+ with an error (orders 0, 11+; NaN φ, mean, ini;         | rejects_nan_param, rejects_nan_mean,       | (only "ValueError + which guard")
+ every series length incl. empty)                        | rejects_nan_ini, wrapper_accepts_iff,      |
+                                                         | wrapper_rejects                            |
+default and explicit sim_mean / sim_ini                  | wrapper_defaults, wrapper_is_kernel,       | numpy.nanmean's summation order
+                                                         | data_mean_undefined_iff,                   | (pairwise; the model sums in order,
+                                                         | wrapper_residual_default_mean_without_data,| compared within n·u and used when
+                                                         | wrapper_residual_default_mean_with_data    | the bits coincide)
+series of length 0 to several thousand, NaN anywhere     | every theorem is ∀ series (induction);     | numpy astype / atleast_1d /
+ incl. the first `order` steps                           | output_length; kernel_sim_resume,          | contiguity (trusted); 0-d and 2-D
+                                                         | kernel_residual_resume (cut anywhere)      | [n,p] series (recorded, not compared)
 -/
 import HydroVerif.Lemmas.C17
 
